@@ -347,7 +347,7 @@ def run(tier, seed, acc):
                 "of two system objects on all live states are compared with from-scratch states, "
                 "then again after re-assigning each variable (probe suffix); plus amnesic-state "
                 "runs of integrators and transitions; non-trivial = distinct states that passed",
-        "exhaustive": True,
+        "exhaustive": not c.get("capped_classes"),
         "bounds": {"depth": 2 if tier == "quick" else 3, "classes": len(cw.SYSTEM_SPECS),
                    "conventions": len(cw.CONVS),
                    "method_comparisons": c.get("method_comparisons", 0)},
